@@ -152,6 +152,11 @@ func VerifH_C18_RequestID() {
 	id := e.sc.nextRequestID()
 	vfAssert(id != 0, "request id 0 handed out")
 	vfAssert(id == pre+1 || (pre == 4294967295 && id == 1), "request ids do not increase by one")
+	// two consecutive requests never share an id (also right after the wrap)
+	id2 := e.sc.nextRequestID()
+	vfAssert(id2 != 0 && id2 != id, "two consecutive requests get the same request id")
+	vfAssert(id2 == id+1 || (id == 4294967295 && id2 == 1), "request ids do not increase by one")
+	id = id2
 	// a response channel registered under the next id (e.g. after a wrap): the new request must be refused, not overwrite it
 	old := make(chan *MessageBody, 1)
 	e.sc.handlers[id+1] = old
